@@ -87,7 +87,7 @@ def run(rule_filter=None, jobs=None, repo=None, quiet_rules=None):
         work.append(('fire', mid, fn, old, new, list(rules), baseline, repo, False))
     for m in QUIET:
         mid, fn, old, new = m[:4]
-        work.append(('quiet', mid, fn, old, new, qrules, baseline, repo, 'helper' in mid))
+        work.append(('quiet', mid, fn, old, new, qrules, baseline, repo, 'helper' in mid or (len(m) > 4 and m[4] == 'all')))
     jobs = jobs or min(16, os.cpu_count() or 4)
     t0 = time.time()
     with ProcessPoolExecutor(max_workers=jobs) as ex:
